@@ -125,9 +125,15 @@ class Gen:
                                  "accordion", "carousel", "raw"])
         if kind == "text":
             body = r.choice(["%s", "<b>%s</b> plain", "<p>%s</p><br/>x", "a &amp; %s", "<span class=\"k\">%s</span>"]) % self.sentinel()
-            return self.node("mj-text", text=body)
+            n = self.node("mj-text", text=body)
+            if r.random() < 0.2:
+                n["attrs"]["mj-class"] = r.choice(["cl1", "cl1 cl2", "cl2 cl1"])
+            return n
         if kind == "button":
-            return self.node("mj-button", text=self.sentinel(), force=("href",) if r.random() < 0.7 else ())
+            n = self.node("mj-button", text=self.sentinel(), force=("href",) if r.random() < 0.7 else ())
+            if r.random() < 0.15:
+                n["attrs"]["mj-class"] = "cl1"
+            return n
         if kind == "image":
             return self.node("mj-image", force=("src",), exclude=("fluid-on-mobile",) if r.random() < 0.8 else ())
         if kind == "divider":
@@ -152,7 +158,8 @@ class Gen:
             imgs = [self.node("mj-carousel-image", force=("src",)) for _ in range(r.randint(1, 3))]
             return self.node("mj-carousel", children=imgs)
         if kind == "raw":
-            return {"tag": "mj-raw", "attrs": {}, "children": [], "text": "<div class=\"rawk\">%s</div>" % self.sentinel()}
+            body = r.choice(["<div class=\"rawk\">%s</div>", "<div class=\"rawk\">%s</div>", "%s", "plain %s text"]) % self.sentinel()
+            return {"tag": "mj-raw", "attrs": {}, "children": [], "text": body}
         raise ValueError(kind)
 
     def column(self, n_leaves=None, exclude=()):
@@ -162,7 +169,10 @@ class Gen:
 
     def group(self):
         r = self.rng
-        return self.node("mj-group", children=[self.column() for _ in range(r.randint(1, 3))])
+        kids = [self.column() for _ in range(r.randint(1, 3))]
+        if r.random() < 0.25:
+            kids.insert(r.choice([0, len(kids), r.randint(0, len(kids))]), self.leaf("raw"))
+        return self.node("mj-group", children=kids)
 
     def section(self, kind=None):
         r = self.rng
@@ -231,6 +241,8 @@ class Gen:
                 ak.append({"tag": "mj-all", "attrs": {"font-family": r.choice(FONTS)}, "children": [], "text": None})
             if r.random() < 0.5:
                 ak.append({"tag": "mj-class", "attrs": {"name": "cl1", "color": r.choice(COLORS), "font-size": "15px"}, "children": [], "text": None})
+                if r.random() < 0.5:
+                    ak.append({"tag": "mj-class", "attrs": {"name": "cl2", "font-size": "19px", "line-height": "1.5"}, "children": [], "text": None})
             kids.append({"tag": "mj-attributes", "attrs": {}, "children": ak, "text": None})
         if r.random() < 0.3:
             kids.append({"tag": "mj-style", "attrs": {}, "children": [], "text": ".x { color: red; }"})
